@@ -399,7 +399,7 @@ def render(scratch, template_path, vacuity=False):
             body2 = body2[:ob_ + 1] + "\n        let mut verif_self = self;" + "".join(buf)
             rep["transformations"].append("`mut self` parameter written out: `(self, ..)` + `let mut verif_self = self;` and %d `self` tokens of the body renamed (Verus does not support `mut self`)" % nrep)
         piece = sig2 + "\n" + "\n".join(contract) + ("\n" if contract else "") + body2
-        out.append("// ---- verbatim from %s:%d-%d (sha256 %s) ----" % (p.file, a + 1, e + 1, rep["sha256_verbatim"][:16]))
+        out.append("// ---- verbatim from %s:%d-%d (sha256 %s) [fn %s] ----" % (p.file, a + 1, e + 1, rep["sha256_verbatim"][:16], rep["fn"]))
         out.append(piece)
         out.append("// ---- end of pasted function ----")
         report.append(rep)
@@ -408,6 +408,13 @@ def render(scratch, template_path, vacuity=False):
 
 
 TEMPLATE_DIR = os.path.join(common.VERIF, "overlay", "verus")
+
+
+def rel_src(report, disp):
+    for r in report:
+        if r.get("fn") == disp:
+            return "%s:%d-%d" % (r["file"], r["lines"][0], r["lines"][1])
+    return "?"
 
 
 def extract_units():
@@ -462,8 +469,20 @@ def extract_part(prop, tier, seed, units_ignored, tag, only=None):
             o, v, un = verus._collect(prop, [], {rel: text}, diags, summary, out, "verus-extract", fn_display)
             if summary is not None and summary.get("verification-results", {}).get("verified", 0) == 0 and not v:
                 un.append("%s: verus verified 0 functions" % u["name"])
+            # display name of the function a labelled clause belongs to (the `[fn ..]` marker in front of the pasted text)
+            disp_of = {}
+            cur_ = None
+            for line_ in text.splitlines():
+                mk_ = re.search(r"// ---- verbatim from .* \[fn (.*)\] ----", line_)
+                if mk_:
+                    cur_ = mk_.group(1)
+                ml_ = verus.LABEL_RE.search(line_)
+                if ml_ and cur_:
+                    disp_of[ml_.group(1)] = cur_
             for ob in o:
                 ob["unit"] = u["name"]
+                if ob["name"] in disp_of:
+                    ob["fn"] = disp_of[ob["name"]] + " (" + rel_src(report, disp_of[ob["name"]]) + ")"
             obligations += o; undecided += ["%s: %s" % (u["name"], x) for x in un]
             for vv in v:
                 driver.verus_replay(prop, vv, sc)
